@@ -62,9 +62,38 @@ def _expr_defs(e):
     return out
 
 
+def eval_cond(e, assume):
+    """Truth value of a condition under `assume` ({param name: bool}), or None if unknown.
+    Understands p, !p, p == true/false/0/1, p != ..."""
+    if not assume:
+        return None
+    s = strip_parens(e)
+    k = s.get('kind')
+    if k == 'UnaryOperator' and s.get('opcode') == '!':
+        v = eval_cond(children(s)[0], assume)
+        return None if v is None else (not v)
+    if k == 'BinaryOperator' and s.get('opcode') in ('==', '!='):
+        a, b = children(s)
+        for x, y in ((a, b), (b, a)):
+            xs = strip(x)
+            if xs.get('kind') == 'DeclRefExpr' and xs.get('_ref') and xs['_ref'][0] == 'param' \
+                    and xs['_ref'][2] in assume:
+                c = int_value(y)
+                if c is not None and not isinstance(c, str):
+                    v = (assume[xs['_ref'][2]] == bool(c))
+                    return v if s.get('opcode') == '==' else (not v)
+        return None
+    xs = strip(s)
+    if xs.get('kind') == 'DeclRefExpr' and xs.get('_ref') and xs['_ref'][0] == 'param' and xs['_ref'][2] in assume:
+        return assume[xs['_ref'][2]]
+    return None
+
+
 class ReachingDefs:
-    def __init__(self, func):
+    def __init__(self, func, assume=None):
+        """assume: {param name: bool} - CFG edges contradicting the assumption are not followed."""
         self.func = func
+        self.assume = assume
         cfg = func.cfg
         self.defs = []
         self.node_gen = {}
@@ -92,6 +121,10 @@ class ReachingDefs:
                     cur[d.var] = frozenset([d.id])
             self.OUT[n.id] = cur
             for (s, _l) in n.succs:
+                if assume and n.kind == 'cond' and _l in ('T', 'F') and isinstance(n.ast, dict):
+                    v = eval_cond(n.ast, assume)
+                    if v is not None and v != (_l == 'T'):
+                        continue
                 old = self.IN.get(s.id)
                 if old is None:
                     self.IN[s.id] = dict(cur)
@@ -193,6 +226,11 @@ def origins(rd, node_id, e, prog=None, depth=0, seen=None):
         return {'path:%s' % canon_subst(rd, node_id, e)}
     if k == 'ConditionalOperator':
         ch = children(e)
+        v = eval_cond(ch[0], getattr(rd, 'assume', None))
+        if v is True:
+            return origins(rd, node_id, ch[1], prog, depth, seen)
+        if v is False:
+            return origins(rd, node_id, ch[2], prog, depth, seen)
         return origins(rd, node_id, ch[1], prog, depth, seen) | origins(rd, node_id, ch[2], prog, depth, seen)
     if k == 'CallExpr':
         nm = None
